@@ -18,6 +18,8 @@ CLAIMS = {
     "C05": ("Coq theorems C05_*: source pattern table = ISO 15417 width table (all 107, distinct, 11/13 modules); for EVERY byte string the Code 128 model never panics, accepts exactly 1..80 runes over ASCII ∪ FNC1-4, and the ISO reference decoder applied to the model's modules returns exactly the rune sequence (induction over the rune list generalised over the current code set), check character = mod-103 value = CheckSum(). Tied to the code by generated tables (gotab), differential run incl. the internal index list (exhaustive short strings over a class alphabet, Markov random), and the extracted reference decoder run on the implementation's pixels.", "DESIGN.md §5 C05"),
 }
 
+CLAIMS["C17"] = ("Coq theorems C17_*: the run-time tables of all 7 fields the library constructs (dumped from /repo by gotab) equal the model of NewGaloisField at the ISO primitive polynomials and pass the computable check gf_ok, from which the field laws are proved GENERICALLY for all operands (closure, commutativity, associativity, unit, distributivity over xor via linearity of the doubling map, inverse, division defined for every non-zero divisor and undoing multiplication, explicit panic on zero divisor, no zero divisors); table product = textbook shift-and-add product for all pairs of the fields up to 256 elements; polynomial division terminates without panic with deg r < deg g and dividend = q*g + r at every field point (coefficient-level equality not proved: partial); Reed-Solomon: for every data vector, every k with base+k <= size and EVERY history of earlier requests the encoder returns k field symbols, equal to a fresh encoder's, making data++ecc vanish at alpha^base..alpha^(base+k-1) (uniqueness of the check symbols not proved: partial). Tied to the code by the table dump, exhaustive differential rows of Multiply/Divide/Invers for every field (all rows in thorough), random polynomial ops, RS request histories incl. the package-level qr/datamatrix encoders, with textbook-multiplication / division-identity / zero-syndrome oracles on the implementation's outputs.", "DESIGN.md §5 C17")
+
 ALL = ["C%02d" % i for i in range(1, 19)]
 
 
